@@ -1,4 +1,5 @@
 import Pk.Tsvd
+import PkLA.Truncation
 import Mathlib.Algebra.Order.Field.Rat
 /-! # C14 — the retained rank obeys the truncation rule
 
@@ -143,5 +144,28 @@ theorem C14_validation (sig : List Rat) :
 
 example : cutoffRank (1/2) [3, 2, 1/2, 1/4] = 2 ∧ fitRank .cutoff (some (1/2)) [3, 2, 1/2, 1/4] = .rank 2 := by
   decide +kernel
+
+/-! ### the factors -/
+section factors
+open Matrix PkLA
+variable {m n a b : Type} [Fintype m] [Fintype n] [Fintype a] [Fintype b] [DecidableEq a] [DecidableEq b]
+
+/-- cutting all three factors of a valid SVD `X = Q diag(σ) Zᵀ` at the same index set keeps a valid factorisation
+(orthonormal columns on both sides) … -/
+theorem C14_kept_orthonormal (Q : Matrix m (a ⊕ b) ℝ) (Z : Matrix n (a ⊕ b) ℝ) (hQ : Qᵀ * Q = 1) (hZ : Zᵀ * Z = 1) :
+    (keepL Q)ᵀ * keepL Q = 1 ∧ (keepL Z)ᵀ * keepL Z = 1 :=
+  ⟨orth_keep Q hQ, orth_keep Z hZ⟩
+
+/-- … whose product differs from `X` by exactly the discarded triplets, with squared Frobenius error `Σ_discarded σ²`
+(so keeping the largest `σ` minimises the error AMONG index cuts; optimality among all rank-r matrices, Eckart–Young,
+is not proved) -/
+theorem C14_residual (Q : Matrix m (a ⊕ b) ℝ) (Z : Matrix n (a ⊕ b) ℝ) (s : a ⊕ b → ℝ)
+    (hQ : Qᵀ * Q = 1) (hZ : Zᵀ * Z = 1) :
+    Q * diagonal s * Zᵀ - keepL Q * diagonal (s ∘ Sum.inl) * (keepL Z)ᵀ
+        = dropL Q * diagonal (s ∘ Sum.inr) * (dropL Z)ᵀ
+    ∧ fro2 (Q * diagonal s * Zᵀ - keepL Q * diagonal (s ∘ Sum.inl) * (keepL Z)ᵀ) = ∑ k : b, s (Sum.inr k) ^ 2 :=
+  truncation_residual Q Z s hQ hZ
+
+end factors
 
 end Pk.C14
